@@ -191,6 +191,46 @@ func driveC12(args []string) error {
 			}
 		}
 	}
+	// sizes in tenths of a unit (round 10): not dyadic, so the float32 arithmetic rounds at every step - the placement must
+	// still be the rational one within the tolerance, at every alignment (Max above all: min + size lands on the target's
+	// far edge only up to rounding)
+	{
+		type fit10Ev struct {
+			Ev   string `json:"ev"`
+			Kind string `json:"kind"`
+			N4   [4]int `json:"n4"`
+			A4   [2]int `json:"a4"`
+			Vb   []F    `json:"vb"`
+			D    []F    `json:"d"`
+			A    []F    `json:"a"`
+			Got  []F    `json:"got"`
+		}
+		tenth := func(n int) float32 { return float32(n) / float32(10) }
+		for i := 0; i < *n/4; i++ {
+			vw, vh := 50+rng.Intn(2951), 50+rng.Intn(2951)
+			dx, dy := 50+rng.Intn(3951), 50+rng.Intn(3951)
+			ax, ay := as[rng.Intn(5)], as[rng.Intn(5)]
+			if i%2 == 0 {
+				ax, ay = []int{4, 0}[rng.Intn(2)], 4 // the far edge, the case named above
+				if rng.Intn(2) == 0 {
+					ax, ay = ay, ax
+				}
+			}
+			vb := ivg.ViewBox{MinX: 0, MinY: 0, MaxX: tenth(vw), MaxY: tenth(vh)}
+			fdx, fdy, fax, fay := tenth(dx), tenth(dy), float32(ax)/4, float32(ay)/4
+			for _, kind := range []string{"meet", "slice"} {
+				var a, b, cc, d float32
+				if kind == "meet" {
+					a, b, cc, d = vb.AspectMeet(fdx, fdy, fax, fay)
+				} else {
+					a, b, cc, d = vb.AspectSlice(fdx, fdy, fax, fay)
+				}
+				sh.Next().Emit(fit10Ev{Ev: "fit10", Kind: kind, N4: [4]int{vw, vh, dx, dy}, A4: [2]int{ax, ay},
+					Vb: fs(0, 0, vb.MaxX, vb.MaxY), D: fs(fdx, fdy), A: fs(fax, fay), Got: fs(a, b, cc, d)})
+				stats["fit10"]++
+			}
+		}
+	}
 	// arbitrary float32 sizes over many orders of magnitude: ordering part only
 	for i := 0; i < *n/4; i++ {
 		// moderate aspect ratios (2^-8..2^8); the viewBox and the target each carry an independent common
